@@ -1,16 +1,15 @@
 #!/bin/bash
-# usage: seed_rerun.sh [name ...]  — apply each stored seeded patch to /repo, run all checks, restore /repo
+# usage: seed_rerun.sh [name ...]  — applies each stored seeded change to /repo, decides every property on it (`qvet verdicts`: one
+# load, all rules, nothing written) and restores /repo. Every seed must be caught by the check of its own property.
 cd /verif
 names="$@"; [ -z "$names" ] && names=$(ls seeded)
 for n in $names; do
-  [ -f seeded/$n/patch.diff ] || continue
-  git -C /repo apply /verif/seeded/$n/patch.diff || { echo "$n: PATCH DOES NOT APPLY"; continue; }
-  RES=""
-  for p in $(./bin/qvet list | awk '{print $1}'); do
-    o=$(./bin/qvet check -property $p 2>&1); rc=$?
-    if [ $rc -ne 0 ]; then RES="$RES $p"; echo "$o" | grep -v "^VIOLATION\|^qvet\|KNOWN-FINDING" | cut -c1-260 | head -3 | sed "s/^/   [$n $p] /"; fi
-  done
+  P=/verif/seeded/$n/patch.diff
+  [ -f $P ] || continue
+  git -C /repo apply $P || { echo "$n: PATCH DOES NOT APPLY"; continue; }
+  o=$(./bin/qvet verdicts 2>&1)
   git -C /repo checkout -- .
-  echo "$n CAUGHT_BY:$RES"
+  for f in $(grep -A1 '^--- /dev/null' $P | grep '^+++ b/' | sed 's#^+++ b/##'); do rm -f /repo/$f; done
+  echo "$o" | grep "^   \[" | cut -c1-240 | head -${SEED_LINES:-4} | sed "s/^/   [$n]/"
+  echo "$n CAUGHT_BY:$(echo "$o" | awk '$2=="ALARM"{printf " %s",$1}')"
 done
-for p in $(./bin/qvet list | awk '{print $1}'); do ./bin/qvet check -property $p >/dev/null 2>&1; done
